@@ -183,10 +183,10 @@ theorem linkTail_cons {s : St} (hc : Consistent s) (src pp : Path) (n : Name)
       | none => exact holdp
       | some o => exact ⟨holdp, howh o rfl⟩)
   cases hres : createTailG pp n false old (fun pr => pr.link sr.path n) s with
-  | err e s' => rw [hres] at this; exact this
+  | err e s' => rw [hres] at this; exact this.1
   | ok u s' =>
     rw [hres] at this
-    obtain ⟨hc', _, ⟨X', hX', hv'⟩, _, hdf, hmf⟩ := this
+    obtain ⟨hc', _, ⟨X', hX', hv'⟩, _, hdf, hmf, _⟩ := this
     refine ⟨hc', X, X', ?_, hX', hv', hnd⟩
     -- the source node is untouched
     have hnb : (n :: pp).isSuffixOf src = false := by
